@@ -433,6 +433,13 @@ def _scan_flow_scalar_non_spaces(
                             start_mark,
                         )
                 code = int(stream.prefix(length), 16)
+                if code > 0x10FFFF:
+                    raise TokenizeError(
+                        f"expected escape sequence of a unicode code point (at most 10FFFF), but found {stream.prefix(length)!r}",
+                        stream.get_position(),
+                        "while scanning a double-quoted scalar",
+                        start_mark,
+                    )
                 chunks.append(chr(code))
                 stream.forward(length)
             elif ch in _CHARS_NEWLINE:
